@@ -38,7 +38,9 @@ func runFamily(fam string, w *bufio.Writer, r *rng, id, size int, opt string) bo
 	case "call":
 		switch opt {
 		case "", "general":
-			genCall(w, r, id, cfgGeneral, 3, "call")
+			sc := genScenario(r, cfgGeneral)
+			sc.multiTyped(r)
+			emitCall(w, sc, id, 3, "call", "")
 		case "fail":
 			genCall(w, r, id, cfgFail, 2, "call")
 		case "single":
@@ -46,7 +48,9 @@ func runFamily(fam string, w *bufio.Writer, r *rng, id, size int, opt string) bo
 		case "acyclic":
 			genCall(w, r, id, cfgAcyclic, 8, "call")
 		case "exact":
-			emitCall(w, genExact(r, cfgGeneral), id, 5, "call", "fam=exact")
+			sc := genExact(r, cfgGeneral)
+			sc.multiTyped(r)
+			emitCall(w, sc, id, 5, "call", "fam=exact")
 		case "gens":
 			emitCall(w, genGens(r, cfgGeneral), id, 3, "call", "fam=gens")
 		case "malformed":
